@@ -14,7 +14,8 @@ RULE = (
     ">= 2 underscores deleted). (b) generated HTML element trees (nested inline/block elements, script/style content, "
     "entities, whitespace-only nodes): html() equals the visible text nodes known from the generator, joined by single "
     "spaces. Non-trivial: (a) the input contains a run the cleaner must collapse; (b) the tree has a hidden element or "
-    "an entity; distinct = distinct case"
+    "an entity; distinct = distinct case. (c) long texts (256 ... 200,000 characters; thorough: 10^6) in which a whitespace or "
+    "underscore run straddles a power-of-two / round offset, against the same reference scanners (all are non-trivial)"
 )
 ASSUMPTIONS = [
     "HTML trees avoid constructs the HTML parser restructures (nested <a>, block inside <p>, tables): a generator-soundness rule",
@@ -93,9 +94,19 @@ def evaluate(case):
     from eyecite import clean as C
 
     res = Res()
-    if case["kind"] == "text":
-        t = case["text"]
-        steps = case["steps"]
+    if case["kind"] in ("text", "long"):
+        if case["kind"] == "long":
+            # a long text described compactly: `run` placed so that it starts `j` characters before offset `at`
+            at, j, run = case["at"], case["j"], case["run"]
+            if not (0 <= j <= len(run) and at - j >= 0 and run):
+                res.label("out-of-domain")
+                return res
+            t = "a" * (at - j) + run + "b" * 40 + run + "é" * 25
+            steps = list(TEXT_CLEANERS)
+            res.label("long-text")
+        else:
+            t = case["text"]
+            steps = case["steps"]
         real_steps = [CALLABLES.get(s, s) for s in steps]
         unknown = [s for s in steps if s not in TEXT_CLEANERS and s not in CALLABLES]
         out = call(clean_text, t, real_steps)
@@ -115,6 +126,22 @@ def evaluate(case):
             if isinstance(exp, Raised):
                 res.v("cleaner-raises:" + exp.bucket(), f"{s} on {t!r}")
                 return res
+        if case["kind"] == "long":
+            d = f"{at - j} x 'a' + {run!r} + 40 x 'b' + {run!r} + 25 x 'é'"
+            if out != exp:
+                res.v("not-composable", f"{d}: clean_text differs from sequential application")
+            for name in TEXT_CLEANERS:
+                once = call(getattr(C, name), t)
+                ref = REF[name](t)
+                if isinstance(once, Raised):
+                    res.v(f"cleaner-raises:{name}:" + once.bucket(), d)
+                elif once != ref:
+                    k = next((i for i, (x, y) in enumerate(zip(once, ref)) if x != y), min(len(once), len(ref)))
+                    res.v(f"differs-from-reference:{name}", f"{d}: first difference at output offset {k}: cleaner {once[max(0, k - 3): k + 6]!r} reference {ref[max(0, k - 3): k + 6]!r}")
+                elif call(getattr(C, name), once) != once:
+                    res.v(f"not-idempotent:{name}", d)
+            res.nontrivial = True
+            return res
         if out != exp:
             res.v("not-composable", f"clean_text({t!r}, {steps}) = {out!r} but sequential application gives {exp!r}")
         run = False
@@ -254,9 +281,23 @@ def _text_case():
     return st.builds(lambda t, s: {"kind": "text", "text": t, "steps": s}, st.one_of(st.lists(st.sampled_from(ALPH), max_size=30).map("".join), st.lists(st.sampled_from(ALPH), max_size=30).map("".join), _many_runs()), steps)
 
 
+def _long_cases(tier):
+    """Runs straddling offsets at which a block-wise or buffered implementation would split its input."""
+    ats = [2 ** k for k in range(8, 18)] + [1000, 10000, 100000, 3 * 65536]
+    if tier != "quick":
+        ats += [k * 65536 for k in (4, 5, 8, 16)] + [2 ** 20, 10 ** 6]
+    out = []
+    for at in ats:
+        for run in ["  ", " \n ", "\t\t", "___", "__", "\u00a0\u2003", "\r\n"]:
+            for j in range(len(run) + 1):
+                out.append({"kind": "long", "at": at, "j": j, "run": run})
+    return out
+
+
 def phases(tier):
     n, n2 = (30000, 6000) if tier == "quick" else (1000000, 200000)
     return [
+        Phase("long-texts", "enum", items=lambda: _long_cases(tier), exhaustive=True, distinct=True),
         Phase("text-cleaners", "gen", strategy=_text_case, n=n),
         Phase("html-trees", "gen", strategy=lambda: _block(2).map(lambda t: {"kind": "html", "tree": t}), n=n2),
     ]
